@@ -277,13 +277,25 @@ func runFileWriterHistory(c *driverCtx, key, codec string, blocks [][2]any, fail
 	}
 	p := catch(func() { err = fw.WriteHeader(wr) })
 	emit("enc_new", map[string]any{"ref": refNode, "hasref": ref != nil, "failAt": failAt, "accept": accept}, err, p)
+	// the payloads are sub-slices of one backing array (a caller that batches encodings); what each block was meant
+	// to hold is recorded before any call is made
+	var backing []byte
+	offs := []int{0}
 	for _, b := range blocks {
+		backing = append(backing, b[1].([]byte)...)
+		offs = append(offs, len(backing))
+	}
+	wanted := make([][]int, len(blocks))
+	for i := range blocks {
+		wanted[i] = byteList(backing[offs[i]:offs[i+1]])
+	}
+	for i, b := range blocks {
 		if seen || err != nil {
 			break
 		}
-		count, raw := b[0].(int), b[1].([]byte)
+		count, raw := b[0].(int), backing[offs[i]:offs[i+1]]
 		p := catch(func() { err = fw.WriteBlock(wr, count, raw) })
-		emit("fw_block", map[string]any{"count": count, "raw": byteList(raw)}, err, p)
+		emit("fw_block", map[string]any{"count": count, "raw": wanted[i]}, err, p)
 	}
 	return len(w.calls), w.out
 }
